@@ -11,7 +11,7 @@ import (
 
 var sgrPool = []string{"1", "3", "4", "9", "38;2;164;245;155", "48;2;75;75;75", "38;2;156;53;53", "48;2;13;125;0"}
 
-var visiblePool = []rune("abcdefghijklmnopqrstuvwxyzABCXYZ0123456789.,;:!?-_/()[]<>&#\"'éßλж漢字😀¹²³⁰▌•‣⯁…m[")
+var visiblePool = []rune("abcdefghijklmnopqrstuvwxyzABCXYZ0123456789.,;:!?-_/()[]<>&#\"'éßλж漢字😀¹²³⁰▌•‣⯁…m[\u0301\u0308\u20d7\u200d")
 
 var spacePool = []rune{' ', ' ', ' ', ' ', ' ', ' ', ' ', ' ', '\u3000', '\t', '\u0085', '\r', '\v', '\f', '\u00a0', '\u2003'}
 
